@@ -36,4 +36,9 @@ TEXTS["C14"] = T("Sketch.tla states the packed-counter functions twice (arithmet
     "The binding is a per-transition tour: the real Row functions are called on every (byte, nibble), on random multi-byte rows and every counter size 1..70, and the real TinyLFU is driven with random access streams (positions and doorkeeper answers logged); TLC validates every recorded transition against Sketch.tla.",
     "TLA+ spec (Sketch.tla) checked with TLC; per-transition tour and random streams of the real sketch validated by TLC against the spec",
     note="Trusted: TLC, the guarded wrappers. Hash -> position mapping and bloom-filter answers are logged inputs, not derived.")
+TEXTS["C18"] = T("Locks.tla is a wait-for model over thread programs given as data (acquire/release of reader-writer locks, blocking send/recv on bounded queues); a deadlock is a set of threads each waiting only for threads of the set. "
+    "The programs are EXTRACTED from the real code: every lock (traced parking_lot wrappers, DashMap and channel events) reports acquire/release while the scenarios of the other checks run under the harness; tools/locks.py cuts the event stream into critical sections, and TLC explores all interleavings of one section per thread slot (worker, sweeper, consumer, two callers) for deadlock and re-entry. So an order inversion or a lock held across a blocking send is found from benign runs (predictive), without having to hit the interleaving. "
+    "In addition every harness run is a hang detector (a granted step that never reaches its next schedule point) and free-running stress rounds run under a watchdog.",
+    "TLA+ wait-for model (Locks.tla) checked with TLC over lock programs extracted from the real code's lock events; hang detection under the deterministic scheduler; stress with watchdog",
+    note="Trusted: TLC; the traced lock wrappers and one-line lock events report real acquisitions. Over-approximation: a DashMap is one lock, TTL shards / buffers are merged; verified deadlock-free on the unchanged tree, so a reported cycle comes from the change (it may need particular keys/shards to materialise).")
 NOT_APPLICABLE = {}
